@@ -225,21 +225,26 @@ theorem getD_map_div (a : List Rat) (n : Rat) (i : Nat) : (a.map fun x => x / n)
 
 /-! ### the shape of `combine` -/
 
+def meanStat (rest : List Res) (key : String) (v : Rat) : Rat :=
+  (v + (rest.map fun r => stat r key).sum) / ((rest.length + 1 : Nat) : Rat)
+
+def avgArr (rest : List Res) (key : String) (a : List Rat) : List Rat :=
+  (addAll a (rest.map fun r => arr r key)).map fun x => x / ((rest.length + 1 : Nat) : Rat)
+
+def catArr (rest : List Res) (key : String) (a : List Rat) : List Rat :=
+  a ++ (rest.map fun r => arr r key).flatten
+
 theorem combine_stats (avg : Bool) (first : Res) (rest : List Res) :
-    (combine avg first rest).stats = first.stats.map fun p =>
-      (p.1, (fun (key : String) (v : Rat) => (v + (rest.map fun r => stat r key).sum) / ((rest.length + 1 : Nat) : Rat)) p.1 p.2) := by
-  simp only [combine, foldl_addStats, List.map_map, Function.comp_def]
+    (combine avg first rest).stats = first.stats.map fun p => (p.1, meanStat rest p.1 p.2) := by
+  simp only [combine, foldl_addStats, List.map_map, Function.comp_def, meanStat]
 
 theorem combine_arrays_avg (first : Res) (rest : List Res) :
-    (combine true first rest).arrays = first.arrays.map fun p =>
-      (p.1, (fun (key : String) (a : List Rat) =>
-        (addAll a (rest.map fun r => arr r key)).map fun x => x / ((rest.length + 1 : Nat) : Rat)) p.1 p.2) := by
-  simp only [combine, foldl_addArrays_avg, List.map_map, Function.comp_def, if_true]
+    (combine true first rest).arrays = first.arrays.map fun p => (p.1, avgArr rest p.1 p.2) := by
+  simp only [combine, foldl_addArrays_avg, List.map_map, Function.comp_def, if_true, avgArr]
 
 theorem combine_arrays_append (first : Res) (rest : List Res) :
-    (combine false first rest).arrays = first.arrays.map fun p =>
-      (p.1, (fun (key : String) (a : List Rat) => a ++ (rest.map fun r => arr r key).flatten) p.1 p.2) := by
-  simp only [combine, foldl_addArrays_append, Bool.false_eq_true, if_false]
+    (combine false first rest).arrays = first.arrays.map fun p => (p.1, catArr rest p.1 p.2) := by
+  simp only [combine, foldl_addArrays_append, Bool.false_eq_true, if_false, catArr]
 
 /-! ### labels -/
 
